@@ -110,6 +110,7 @@ func runC02(c *Ctx) {
 		"C02.4 FSM.Restore swaps the state in only after the restore transaction committed, aborts by defer, swaps and refreshes subscriptions under the state lock, abandons the old store afterwards; no restorer opens or commits a transaction of its own",
 		"C02.5 the registration restorer goes through the same registration function as the online path, so derived catalog tables are rebuilt by their maintainers",
 		"C02.7 for every restorer that reads a table restored by another record kind, the order of the two in the snapshot stream is the reviewed one (rules/c02_restore_order.json)",
+		"C02.8 every method of the point-in-time state.Snapshot reads through the snapshot's own transaction: no table read on another transaction and no call into a Store method that opens one (the stream must be one consistent cut)",
 		"C02.6 the restore-side rebuild of the peering secret UUID table adds, on every path on which it is non-empty, every secret the online delete path frees",
 	}
 	r.NotDecided = []string{"that restored content equals persisted content for every state (needs the round trip)", "create/modify index equality per row", "query-result equality after the cut"}
@@ -525,6 +526,7 @@ func runC02(c *Ctx) {
 		r.Floor("C02.7", 5)
 	}
 
+	checkSnapshotReadsOwnTxn(c)
 	checkFSMRestore(c, restorers2funcs(restorers))
 	checkRegistrationShared(c)
 	checkSecretUUIDRebuild(c)
@@ -962,4 +964,86 @@ func checkSecretUUIDRebuild(c *Ctx) {
 		}
 	}
 	r.Floor("C02.6", 3)
+}
+
+// opensTxn: f (a Store method or helper) obtains a new transaction from the database.
+func opensTxn(p *core.Program, f *ssa.Function, onStack map[*ssa.Function]bool) bool {
+	if f == nil || f.Blocks == nil || onStack[f] {
+		return false
+	}
+	key := "opensTxn:" + f.String()
+	if v, ok := p.MemoGet(key); ok {
+		return v.(bool)
+	}
+	onStack[f] = true
+	defer delete(onStack, f)
+	res := false
+	for _, b := range f.Blocks {
+		for _, in := range b.Instrs {
+			ci, ok := in.(ssa.CallInstruction)
+			if !ok {
+				continue
+			}
+			n := core.MethodNameOf(ci.Common())
+			if (n == "Txn" || n == "ReadTxn" || n == "WriteTxn" || n == "WriteTxnRestore") && len(core.CallArgs(ci.Common())) <= 1 {
+				if core.AccessOf(ci.Common().Value).LastField() == "db" || (len(ci.Common().Args) > 0 && core.AccessOf(ci.Common().Args[0]).LastField() == "db") {
+					res = true
+				}
+			}
+			if g := ci.Common().StaticCallee(); g != nil && strings.HasSuffix(core.FuncPkgPath(g), "/"+statePkg) && opensTxn(p, g, onStack) {
+				res = true
+			}
+		}
+	}
+	if len(onStack) == 1 {
+		p.MemoSet(key, res)
+	}
+	return res
+}
+
+// C02.8
+func checkSnapshotReadsOwnTxn(c *Ctx) {
+	p, r := c.P, c.R
+	n := 0
+	for _, f := range p.SrcFuncs(statePkg) {
+		if f.Parent() != nil || f.Signature.Recv() == nil {
+			continue
+		}
+		if nt := core.NamedOf(f.Signature.Recv().Type()); nt == nil || nt.Obj().Name() != "Snapshot" {
+			continue
+		}
+		if f.Name() == "Close" {
+			continue
+		}
+		n++
+		name := core.FuncName(f)
+		bad := ""
+		for _, b := range f.Blocks {
+			for _, in := range b.Instrs {
+				if op := core.AsMemdbOp(in); op != nil {
+					if op.IsRead() && core.AccessOf(op.Recv).LastField() != "tx" {
+						bad = "a table is read through a transaction other than the snapshot's own at " + p.Pos(in.Pos())
+					}
+					continue
+				}
+				ci, ok := in.(ssa.CallInstruction)
+				if !ok {
+					continue
+				}
+				g := ci.Common().StaticCallee()
+				if g == nil || !strings.HasSuffix(core.FuncPkgPath(g), "/"+statePkg) {
+					continue
+				}
+				if opensTxn(p, g, map[*ssa.Function]bool{}) {
+					bad = "calls " + core.FuncName(g) + ", which opens a new transaction on the live database, at " + p.Pos(in.Pos())
+				}
+			}
+		}
+		if bad != "" {
+			r.Violate("C02.8", name, p.FuncPos(f), bad+": that part of the snapshot stream is read when Persist runs, not at the cut the snapshot was taken at, so it can be newer than the index records and the other tables — the restored state is one no server ever had, and replaying the log tail gives different results")
+		} else {
+			r.Hold("C02.8", name, p.FuncPos(f), "reads only through the snapshot's transaction")
+		}
+	}
+	r.Floor("C02.8", 25)
 }
